@@ -912,7 +912,7 @@ func replayShim(t *testing.T, unit string) {
 	}
 	var u string
 	_ = json.Unmarshal(rf["unit"], &u)
-	if u != unit+"Regress" && !(unit == "TestC17Mgmt" && u == "TestC17KnownOverrun") {
+	if u != unit+"Regress" && !(unit == "TestC17Mgmt" && (u == "TestC17KnownOverrun" || u == "TestC17KnownBigDataset")) {
 		return
 	}
 	rf["unit"], _ = json.Marshal(unit)
@@ -960,5 +960,46 @@ func TestC17KnownOverrun(t *testing.T) {
 		evid.ReportKnown("C17", knownOverrun)
 	} else {
 		t.Logf("the known finding %s does not reproduce any more: its entry can be turned into status fixed", knownOverrun)
+	}
+}
+
+// TestC17KnownBigDataset re-confirms the listed known finding with fixed histories: a few
+// hundred accepted registrations, then the RIB and FIB datasets. Any violation other than
+// the missing dataset is reported as such.
+func TestC17KnownBigDataset(t *testing.T) {
+	if !evid.Known("C17", knownBigDataset) {
+		t.Skip("not listed as a known finding")
+	}
+	rec := evid.New("C17", "TestC17KnownBigDataset", "fixed histories re-confirming the known finding "+knownBigDataset+": 400 / 1000 accepted rib/register commands for prefixes of their own, then rib/list and fib/list")
+	mk := func(k int, fib string) Case {
+		c := Case{Threads: 1, Fib: fib, CsCap: 1024, Ops: bulkOps(k, 0)}
+		c.Ops = append(c.Ops, Op{Face: 0, Pfx: pfxLocal, Mod: "rib", Verb: "list", Form: "ds"})
+		return c
+	}
+	mkFib := func(k int, fib string) Case {
+		c := Case{Threads: 1, Fib: fib, CsCap: 1024, Ops: bulkOps(k, 0)}
+		c.Ops = append(c.Ops, Op{Face: 0, Pfx: pfxLocal, Mod: "fib", Verb: "list", Form: "ds"})
+		return c
+	}
+	cases := []Case{mk(400, "nametree"), mk(1000, "hashtable"), mkFib(400, "hashtable"), mkFib(1000, "nametree")}
+	confirmed := 0
+	run := execC17(t)
+	evid.Each(t, rec, cases, func(c Case) evid.Result {
+		res := run(c)
+		out := evid.Result{NonTrivial: true}
+		if res.Err != nil && strings.Contains(res.Err.Error(), "no dataset came back") && strings.Contains(res.Err.Error(), fmt.Sprintf("op %d:", len(c.Ops)-1)) {
+			confirmed++
+			out.Classes = []string{"known-finding-reconfirmed"}
+		} else if res.Err != nil {
+			out.Err = res.Err // some other violation: must not be hidden
+		} else {
+			out.Classes = []string{"known-finding-not-reproduced"}
+		}
+		return out
+	})
+	if confirmed > 0 {
+		evid.ReportKnown("C17", knownBigDataset)
+	} else {
+		t.Logf("the known finding %s does not reproduce any more: its entry can be turned into status fixed", knownBigDataset)
 	}
 }
